@@ -12,14 +12,181 @@ Ltac brk :=
          | H : (if ?x then _ else _) = Ok _ |- _ => let E := fresh "E" in destruct x eqn:E; try discriminate H
          end.
 
-(* ---------------------------------------------------------------- totality *)
-(* [load] is a Gallina function defined by structural recursion only (no fuel argument):
-   it returns a value for every version line and every node tree. *)
-Lemma load_total_lemma : forall v d, exists r, load v d = r.
-Proof. intros. eexists. reflexivity. Qed.
+(* ---------------------------------------------------------------- error classes *)
+(* (That [load] answers on every input needs no theorem: every Gallina function is total, and the
+   model is defined by structural recursion only, which Coq's guard checker verifies.  What the
+   lemmas below say is which error class can come from where.) *)
+Definition only_badmsg {A : Type} (r : res A) : Prop := match r with Err e => e = EBadMsg | Ok _ => True end.
+Definition badmsg_or_sys {A : Type} (r : res A) : Prop :=
+  match r with Err e => e = EBadMsg \/ e = ESys | Ok _ => True end.
 
-Lemma load_error_class : forall v d e, load v d = Err e -> e = EBadMsg \/ e = EProto \/ e = ESys.
-Proof. intros v d e _. destruct e; auto. Qed.
+Lemma pv_items_ob : forall d items k c, only_badmsg (pv_items d k items c).
+Proof.
+  intros d. induction items as [|x r IH]; intros k c; simpl; [exact I|].
+  destruct x as [s|q|p|]; try reflexivity. destruct (s_cx s); [apply IH|reflexivity].
+Qed.
+Lemma parse_vector_ob : forall d len n c, only_badmsg (parse_vector d len n c).
+Proof.
+  intros d len n c. destruct n as [s|items|p|]; simpl; try reflexivity.
+  destruct (Z.of_nat (List.length items) =? len); [apply pv_items_ob|reflexivity].
+Qed.
+Lemma pm_row_ob : forall d nd row items col k c, only_badmsg (pm_row d nd row col k items c).
+Proof.
+  intros d nd row. induction items as [|x r IH]; intros col k c; simpl; [exact I|].
+  destruct (nd && (row =? col)).
+  - destruct x as [s|q|p|]; try reflexivity. destruct (is_null_text (s_text s)); [apply IH|reflexivity].
+  - destruct x as [s|q|p|]; try reflexivity. destruct (s_cx s); [apply IH|reflexivity].
+Qed.
+Lemma pm_rows_ob : forall d nd cols rows row k c, only_badmsg (pm_rows d nd cols row k rows c).
+Proof.
+  intros d nd cols. induction rows as [|x r IH]; intros row k c; simpl; [exact I|].
+  destruct x as [s|items|p|]; try reflexivity.
+  destruct (Z.of_nat (List.length items) =? cols); [|reflexivity].
+  pose proof (pm_row_ob d nd row items 0 k c) as H. destruct (pm_row d nd row 0 k items c) as [[c' k']|e]; [apply IH|exact H].
+Qed.
+Lemma parse_matrix_ob : forall d rows cols n nd c, only_badmsg (parse_matrix d rows cols n nd c).
+Proof.
+  intros d rows cols n nd c. destruct n as [s|rs|p|]; simpl; try reflexivity.
+  destruct (Z.of_nat (List.length rs) =? rows); [apply pm_rows_ob|reflexivity].
+Qed.
+Lemma po_triple_ob : forall ly cell items term c, only_badmsg (po_triple ly cell term items c).
+Proof.
+  intros ly cell. induction items as [|x r IH]; intros term c; simpl; [exact I|].
+  destruct x as [s|q|p|]; try reflexivity. destruct (s_cx s); [apply IH|reflexivity].
+Qed.
+Lemma po_row_ob : forall ly items cell c, only_badmsg (po_row ly cell items c).
+Proof.
+  intros ly. induction items as [|x r IH]; intros cell c; simpl; [exact I|].
+  destruct x as [s|trip|p|]; try reflexivity.
+  destruct (Z.of_nat (List.length trip) =? 3); [|reflexivity].
+  pose proof (po_triple_ob ly cell trip 0 c) as H. destruct (po_triple ly cell 0 trip c) as [c'|e]; [apply IH|exact H].
+Qed.
+Lemma po_rows_ob : forall ly rows cell c, only_badmsg (po_rows ly cell rows c).
+Proof.
+  intros ly. induction rows as [|x r IH]; intros cell c; simpl; [exact I|].
+  destruct x as [s|items|p|]; try reflexivity.
+  destruct (Z.of_nat (List.length items) =? l_mc ly); [|reflexivity].
+  pose proof (po_row_ob ly items cell c) as H. destruct (po_row ly cell items c) as [[c' cell']|e]; [apply IH|exact H].
+Qed.
+Lemma parse_old_e_ob : forall ly n c, only_badmsg (parse_old_e ly n c).
+Proof.
+  intros ly n c. destruct n as [s|rs|p|]; simpl; try reflexivity.
+  destruct (Z.of_nat (List.length rs) =? l_mr ly); [apply po_rows_ob|reflexivity].
+Qed.
+Lemma run_steps_ob : forall ly m steps c, only_badmsg (run_steps ly m steps c).
+Proof.
+  intros ly m. induction steps as [|st r IH]; intros c; simpl; [exact I|].
+  match goal with |- only_badmsg (match ?one with _ => _ end) => assert (H : only_badmsg one); [|destruct one as [c'|e]; [apply IH|exact H]] end.
+  destruct st as [i d len|i d rows cols nd|].
+  - destruct (lookup m i); [apply parse_vector_ob|reflexivity].
+  - destruct (lookup m i); [apply parse_matrix_ob|reflexivity].
+  - destruct (lookup m ME); [apply parse_old_e_ob|reflexivity].
+Qed.
+Lemma scan_entry_ob : forall pairs m f, only_badmsg (scan_entry pairs m f).
+Proof.
+  induction pairs as [|[k v] r IH]; intros m f; simpl; [exact I|].
+  destruct k as [s|q|p|]; try apply IH.
+  destruct (String.eqb (s_text s) "f").
+  - destruct v as [s2|q|p|]; try reflexivity. destruct (s_real s2); try apply IH. reflexivity.
+  - destruct (key_mid (s_text s)); apply IH.
+Qed.
+Lemma parse_entries_ob : forall ver ly items prev, only_badmsg (parse_entries ver ly prev items).
+Proof.
+  intros ver ly. induction items as [|x r IH]; intros prev; simpl; [exact I|].
+  destruct x as [s|q|pairs|]; try reflexivity.
+  pose proof (scan_entry_ob pairs [] RNeg) as H. destruct (scan_entry pairs [] RNeg) as [[m f]|e]; [|exact H].
+  destruct (forallb _ _); [|reflexivity].
+  destruct f as [| | |q|]; try reflexivity.
+  - destruct (match prev with Some p => xle (XQ q) p | None => false end); [reflexivity|].
+    pose proof (run_steps_ob ly m (psteps ver ly) (blank ly)) as H2.
+    destruct (run_steps ly m (psteps ver ly) (blank ly)) as [c|e]; [|exact H2].
+    pose proof (IH (Some (XQ q))) as H3. destruct (parse_entries ver ly (Some (XQ q)) r); [exact I|exact H3].
+  - destruct (match prev with Some p => xle XInf p | None => false end); [reflexivity|].
+    pose proof (run_steps_ob ly m (psteps ver ly) (blank ly)) as H2.
+    destruct (run_steps ly m (psteps ver ly) (blank ly)) as [c|e]; [|exact H2].
+    pose proof (IH (Some XInf)) as H3. destruct (parse_entries ver ly (Some XInf) r); [exact I|exact H3].
+Qed.
+Lemma parse_data_ob : forall ver ly freqs n, only_badmsg (parse_data ver ly freqs n).
+Proof.
+  intros ver ly freqs n. destruct n as [s|items|p|]; simpl; try reflexivity.
+  destruct (Z.of_nat (List.length items) =? freqs); [apply parse_entries_ob|reflexivity].
+Qed.
+Lemma scan_set_ob : forall pairs a, only_badmsg (scan_set pairs a).
+Proof.
+  induction pairs as [|[k v] r IH]; intros a; simpl; [exact I|].
+  destruct k as [s|q|p|]; try apply IH.
+  repeat match goal with
+         | |- only_badmsg (if ?b then _ else _) => destruct b
+         | |- only_badmsg (match parse_int ?v with _ => _ end) => destruct (parse_int v)
+         | |- only_badmsg (match ?v with NS _ => _ | _ => _ end) => destruct v
+         | |- only_badmsg (match s_type ?s with _ => _ end) => destruct (s_type s)
+         | |- only_badmsg (scan_set _ _) => apply IH
+         | |- only_badmsg (Err EBadMsg) => reflexivity
+         end.
+Qed.
+(* the property import: bad message (recursive alias) or system (key rejected), never a version error *)
+Lemma props_ok_bs : forall n, badmsg_or_sys (props_ok n).
+Proof.
+  fix IH 1. intros [s|items|pairs|]; simpl.
+  - exact I.
+  - induction items as [|x r IHr]; [exact I|].
+    pose proof (IH x) as Hx. destruct (props_ok x); [exact IHr|exact Hx].
+  - induction pairs as [|[k v] r IHr]; [exact I|].
+    destruct k as [s|q|p|]; try exact IHr.
+    destruct (s_keyok s); [|right; reflexivity].
+    pose proof (IH v) as Hv. destruct (props_ok v); [exact IHr|exact Hv].
+  - left. reflexivity.
+Qed.
+Lemma parse_set_bs : forall ver n, badmsg_or_sys (parse_set ver n).
+Proof.
+  intros ver n. unfold parse_set. destruct n as [s|q|pairs|]; try (left; reflexivity).
+  pose proof (scan_set_ob pairs acc0) as H. destruct (scan_set pairs acc0) as [a|e]; [|left; exact H].
+  destruct (a_name a); [|left; reflexivity]. destruct (a_data a) as [data|]; [|left; reflexivity].
+  destruct ((a_rows a <? 0) || (a_colsn a <? 0) || (a_fr a <? 0)); [left; reflexivity|].
+  match goal with |- badmsg_or_sys (match ?ty with _ => _ end) => destruct ty as [t|]; [|left; reflexivity] end.
+  destruct ((a_rows a <? min_dim) || (a_colsn a <? min_dim) || negb (dims_fit t (a_rows a) (a_colsn a))); [left; reflexivity|]. cbv zeta.
+  destruct (int_max / 4 <? Z.max (a_rows a) (a_colsn a) * Z.max (a_rows a) (a_colsn a)); [left; reflexivity|].
+  assert (Hp : badmsg_or_sys (match a_props a with Some pn => props_ok pn | None => Ok tt end)).
+  { destruct (a_props a); [apply props_ok_bs|exact I]. }
+  destruct (match a_props a with Some pn => props_ok pn | None => Ok tt end); [|exact Hp].
+  pose proof (parse_data_ob ver (mk_layout t (a_rows a) (a_colsn a)) (a_fr a) data) as Hd.
+  destruct (parse_data ver (mk_layout t (a_rows a) (a_colsn a)) (a_fr a) data); [exact I|left; exact Hd].
+Qed.
+Lemma parse_calibrations_bs : forall ver items acc, badmsg_or_sys (parse_calibrations ver items acc).
+Proof.
+  intros ver. induction items as [|x r IH]; intros acc; simpl; [exact I|].
+  pose proof (parse_set_bs ver x) as H. destruct (parse_set ver x); [apply IH|exact H].
+Qed.
+Lemma parse_document_bs : forall ver pairs acc, badmsg_or_sys (parse_document ver pairs acc).
+Proof.
+  intros ver. induction pairs as [|[k v] r IH]; intros acc; simpl; [exact I|].
+  destruct k as [s|q|p|]; try apply IH.
+  assert (Hp : badmsg_or_sys (if String.eqb (s_text s) "properties" then props_ok v else Ok tt)).
+  { destruct (String.eqb (s_text s) "properties"); [apply props_ok_bs|exact I]. }
+  destruct (if String.eqb (s_text s) "properties" then props_ok v else Ok tt); [|exact Hp].
+  destruct (String.eqb (s_text s) "calibrations" || (ver =? 0) && String.eqb (s_text s) "sets"); [|apply IH].
+  destruct v as [s2|items|p2|]; try (left; reflexivity).
+  pose proof (parse_calibrations_bs ver items acc) as H. destruct (parse_calibrations ver items acc); [apply IH|exact H].
+Qed.
+
+(* ENOPROTOOPT comes from the version line and from nowhere else *)
+Theorem load_eproto_iff : forall v d, load v d = Err EProto <-> version_of v = Err EProto.
+Proof.
+  intros v d. unfold load. split.
+  - destruct (version_of v) as [ver|e]; [|intro H; inversion H; reflexivity].
+    destruct d as [[s|q|pairs|]|]; try discriminate.
+    pose proof (parse_document_bs ver pairs []) as H. intro E. rewrite E in H. destruct H; discriminate.
+  - intro E. rewrite E. reflexivity.
+Qed.
+
+(* a version line the loader accepts: the only errors left are EBADMSG, or a system error raised by
+   the property import *)
+Theorem load_version_ok_errors : forall v ver d e, version_of v = Ok ver -> load v d = Err e -> e = EBadMsg \/ e = ESys.
+Proof.
+  intros v ver d e Hv H. unfold load in H. rewrite Hv in H.
+  destruct d as [[s|q|pairs|]|]; try (inversion H; left; reflexivity).
+  pose proof (parse_document_bs ver pairs []) as P. rewrite H in P. exact P.
+Qed.
 
 (* ---------------------------------------------------------------- frequencies strictly ascending *)
 Lemma parse_entries_ascending : forall ver ly items prev l,
@@ -67,6 +234,7 @@ Proof.
   apply orb_false_elim in Eneg. destruct Eneg as [Eneg E3]. apply orb_false_elim in Eneg. destruct Eneg as [E1 E2].
   apply Z.ltb_ge in E1. apply Z.ltb_ge in E2.
   match type of H with (match ?ty with _ => _ end) = _ => destruct ty as [t|] eqn:Ety; [|discriminate H] end.
+  destruct ((a_rows a <? min_dim) || (a_colsn a <? min_dim)); [discriminate H|].
   destruct (dims_fit t (a_rows a) (a_colsn a)) eqn:Ed; [|discriminate H]. simpl in H.
   destruct (int_max / 4 <? Z.max (a_rows a) (a_colsn a) * Z.max (a_rows a) (a_colsn a)); [discriminate H|].
   match type of H with (match ?p with _ => _ end) = _ => destruct p; [|discriminate H] end.
@@ -139,34 +307,3 @@ Example ascending_accepted :
   end.
 Proof. vm_compute. split; reflexivity. Qed.
 
-(* ---------------------------------------------------------------- emit / parse, bounded *)
-Definition label (i : Z) : string := String (Ascii.ascii_of_nat (Z.to_nat i + 33)) EmptyString.
-Definition labelled (n : Z) : list string := map label (zseq n).
-Fixpoint cells_eqb (a : cells) (b : list string) : bool :=
-  match a, b with
-  | [], [] => true
-  | Some x :: r, y :: s => String.eqb x y && cells_eqb r s
-  | _, _ => false
-  end.
-Definition roundtrip_ok (t : ctype) (mr mc : Z) : bool :=
-  let ly := mk_layout t mr mc in
-  let c := labelled (l_terms ly) in
-  match parse_entries 1 ly None [emit_entry ly (fscalar (1#1)) c] with
-  | Ok [(_, got)] => cells_eqb got c && cells_defined (l_terms ly) got
-  | _ => false
-  end.
-Definition all_types : list ctype := [T8; U8; TE10; UE10; T16; U16; UE14; E12].
-Definition dims_upto (n : Z) : list (Z * Z) := flat_map (fun r => map (fun c => (r, c)) (map (fun k => k + 1) (zseq n))) (map (fun k => k + 1) (zseq n)).
-Definition all_roundtrips (n : Z) : bool :=
-  forallb (fun t => forallb (fun rc => if dims_fit t (fst rc) (snd rc) then roundtrip_ok t (fst rc) (snd rc) else true) (dims_upto n)) all_types.
-
-Lemma emit_parse_terms_upto4 : all_roundtrips 4 = true.
-Proof. vm_compute. reflexivity. Qed.
-
-Lemma emit_parse_terms_bounded : forall t mr mc, In t all_types -> In (mr, mc) (dims_upto 4) -> dims_fit t mr mc = true ->
-  roundtrip_ok t mr mc = true.
-Proof.
-  intros t mr mc Ht Hd Hf. pose proof emit_parse_terms_upto4 as H. unfold all_roundtrips in H.
-  rewrite forallb_forall in H. specialize (H t Ht). rewrite forallb_forall in H. specialize (H (mr, mc) Hd).
-  simpl in H. rewrite Hf in H. exact H.
-Qed.
